@@ -95,6 +95,41 @@ Theorem table_assignment_idempotent : forall sec key v d d',
               setitem table feats sec key w d' = Done d' [].
 Proof. exact (setitem_idempotent table feats). Qed.
 
+Lemma lookup_row_in' : forall l sec key r,
+    lookup_row l sec key = Some r -> In r l.
+Proof.
+  induction l as [|r0 l IH]; intros sec key r H; cbn [lookup_row] in H.
+  - discriminate H.
+  - destruct (str_eqb (r_sec r0) sec && str_eqb (r_key r0) key).
+    + injection H as H. subst r0. left. reflexivity.
+    + right. apply IH with (sec := sec) (key := key). exact H.
+Qed.
+
+(* every key that has a documented type (table keys and the pattern keys
+   "<feat> soft limit", "<f1>,<f2> polygon points", "<feat> min/max"): the
+   stored value has that type *)
+Theorem all_keys_type_ok : forall sec key v w,
+    types_of table sec key <> [] -> not_bytes v = true ->
+    apply (func_of table sec key) v = Ok w ->
+    has_some_type (types_of table sec key) w = true.
+Proof.
+  intros sec key v w Ht Hb Ha. unfold types_of, func_of in *.
+  destruct (str_eqb sec s_user); [contradiction Ht; reflexivity|].
+  destruct (lookup_row table sec key) as [r|] eqn:El.
+  - apply (table_type_ok r (lookup_row_in' _ _ _ _ El) v w Hb Ha).
+  - destruct (str_eqb sec s_online_filter); [|contradiction Ht; reflexivity].
+    destruct (ends_with s_soft_limit key).
+    + destruct (fbool_out v w Ha) as [b Hw]. subst w. reflexivity.
+    + destruct (ends_with s_polygon_points key).
+      * destruct (f2d_out v w Ha) as [[x Hx]|[[l Hl]|[l Hl]]]; subst w;
+          reflexivity.
+      * destruct (ends_with [109; 105; 110] key || ends_with [109; 97; 120] key).
+        -- pose proof (fnumber_out v w Ha) as Hn.
+           destruct w as [x| | | | |]; try discriminate Hn.
+           destruct x; try discriminate Hn; reflexivity.
+        -- contradiction Ht. reflexivity.
+Qed.
+
 (* ------------------------------------------------------------------ *)
 (* non-vacuity: concrete inputs that meet the hypotheses                *)
 (* ------------------------------------------------------------------ *)
@@ -203,3 +238,57 @@ Proof.
   apply lookup_row_in with (sec := codes "qpi") (key := codes "scale to filter").
   vm_compute. reflexivity.
 Qed.
+
+(* the online_filter range keys convert text to numbers and keep numbers *)
+Example ex_minmax_number :
+  setitem table feats (codes "online_filter") (codes "Deform Min")
+          (VS (SStr (codes "0.5"))) []
+  = Done [(codes "deform min", VS (SFloat (FFin 4)))] [] /\
+  setitem table feats (codes "online_filter") (codes "deform max")
+          (VS (SInt 1)) []
+  = Done [(codes "deform max", VS (SInt 1))] [] /\
+  types_of table (codes "online_filter") (codes "deform min") = [TNumber].
+Proof. vm_compute. repeat split; reflexivity. Qed.
+
+(* section names in any case *)
+Example ex_cfg_section_case :
+  cfg_item table feats sections (codes "SETUP") (codes "Channel Width")
+           (VS (SStr (codes "20"))) []
+  = CDone [(codes "setup", [(codes "channel width", VS (SFloat (FFin 160)))])]
+          [] /\
+  cfg_update table feats (codes "Peter") [(codes "x", VS (SInt 1))] []
+  = CDone [(codes "peter", [])] [WUnknown] /\
+  cfg_item table feats sections (codes "peter") (codes "x") (VS (SInt 1)) []
+  = CExc EKey.
+Proof. vm_compute. repeat split; reflexivity. Qed.
+
+(* a whole file: two sections, a repeated key, a comment, an invalid line *)
+Example ex_load_lines :
+  load_lines table feats None
+    [codes "# comment"; codes "[Setup]"; codes "channel width = 20";
+     codes "medium = a=b"; codes "no equal sign";
+     codes "[imaging]"; codes "pixel size = 0.5"; codes "[setup]";
+     codes "channel width = 30"] []
+  = CDone [(codes "setup", [(codes "channel width", VS (SFloat (FFin 240)));
+                            (codes "medium", VS (SStr (codes "a=b")))]);
+           (codes "imaging", [(codes "pixel size", VS (SFloat (FFin 4)))])] []
+  /\ load_lines table feats None [codes "a = 1"] [] = CExc EOther.
+Proof. vm_compute. split; reflexivity. Qed.
+
+Example ex_good_entry :
+  good_entry table feats (codes "setup")
+             (codes "Medium = a=b # c", codes "Medium ", codes " a=b").
+Proof.
+  unfold good_entry. repeat split; try (vm_compute; reflexivity);
+    vm_compute; discriminate.
+Qed.
+
+(* three export hops of a value that needs conversion *)
+Example ex_carry_hops :
+  carry_hops table feats meta_sections 3 (codes "imaging") (codes "pixel size")
+             (VS (SStr (codes "0.5")))
+  = Done [(codes "pixel size", VS (SFloat (FFin 4)))] [] /\
+  carry_hops table feats meta_sections 3 (codes "user") (codes "A:b")
+             (VSeq false [SInt 1; SInt 2])
+  = Done [(codes "a:b", VArr1 DInt [FFin 8; FFin 16])] [].
+Proof. vm_compute. split; reflexivity. Qed.
